@@ -178,6 +178,53 @@ def moved_tracepoint_leg(c, wd):
         sys.modules.pop(mod.__name__, None)
 
 
+def multi_action_leg(c, wd):
+    """The limits are kept PER ACTION of a tracepoint (snapshot, log, metric, span each count their own collections):
+    a tracepoint with several actions and fire_count=2 is hit five times across three configurations of the service in
+    which it is unchanged - every one of its actions performs exactly two collections."""
+    from deepproto.proto.tracepoint.v1.tracepoint_pb2 import Metric, MetricType
+    from .. import rig as R
+    mod, path, marks = R.write_host(wd, MOVE_HOST)
+    base = path.rsplit('/', 1)[-1]
+    for label, args, with_metric in (
+            ('snapshot+log+metric', {'fire_count': '2', 'fire_period': '0', 'log_msg': 'x is {c}'}, True),
+            ('snapshot+metric', {'fire_count': '2', 'fire_period': '0'}, True),
+            ('snapshot+span+metric', {'fire_count': '2', 'fire_period': '0', 'span': 'line'}, True),
+            ('log+metric (no snapshot)', {'fire_count': '2', 'fire_period': '0', 'log_msg': 'c={c}', 'snapshot': 'no_collect'}, True),
+            ('snapshot+log', {'fire_count': '2', 'fire_period': '0', 'log_msg': 'x is {c}'}, False)):
+        plugin = R.RecPlugin(name='rec')
+        rg = R.Rig(plugins=[plugin])
+        try:
+            metrics = [Metric(name='hits', type=MetricType.COUNTER)] if with_metric else []
+            mine = {'id': 'tp-multi', 'path': base, 'line': marks['first'], 'args': dict(args), 'metrics': metrics}
+            hits = 0
+            for round_, nhits in enumerate((1, 2, 2)):
+                tps = [dict(mine)]
+                if round_ % 2 == 0:
+                    tps.append({'id': 'tp-other-%d' % round_, 'path': 'elsewhere.py', 'line': 3 + round_, 'args': {}})
+                rg.install(tps)
+                for _ in range(nhits):
+                    hits += 1
+                    rg.clock.set(10 * hits)
+                    rg.run(mod.first, hits, only_file=path)
+            got = {'snapshot': len(rg.snapshots()),
+                   'log': len([1 for k in plugin.calls if k[0] == 'log']),
+                   'metric': len([1 for k in plugin.calls if k[0] == 'metric']),
+                   'span': len(plugin.spans)}
+            want = {'snapshot': 0 if args.get('snapshot') == 'no_collect' else 2, 'log': 2 if 'log_msg' in args else 0,
+                    'metric': 2 if with_metric else 0, 'span': 2 if 'span' in args else 0}
+            c.traces_validated += 1
+            c.note_case(key=('multi-action', label), nontrivial=True)
+            if got != want or rg.escaped:
+                p_ = c.save_replay({'kind': 'multi-action', 'actions': label, 'args': args, 'collections': got, 'expected': want,
+                                    'escaped': [repr(e) for e in rg.escaped]})
+                c.violation('a fire_count=2 tracepoint with the actions %s, hit 5 times across 3 configurations in which it is '
+                            'unchanged, performed %s collections, expected %s' % (label, got, want), p_)
+        finally:
+            rg.close()
+    sys.modules.pop(mod.__name__, None)
+
+
 def gate_schedules(c, cfgs, wd, line_level, max_preemptions, max_runs, nthreads=2):
     """Concurrent hits under the cooperative scheduler; every schedule's trace goes to TLC."""
     traces = []
@@ -333,6 +380,7 @@ def run(c):
     validate(c, traces, meta, 'history')
     window_args_leg(c, wd)
     moved_tracepoint_leg(c, wd)
+    multi_action_leg(c, wd)
     # concurrent schedules
     traces, meta = gate_schedules(c, RACE_CFGS, wd, line_level=False, max_preemptions=8, max_runs=None)
     validate(c, traces, meta, 'gate-schedule')
